@@ -60,23 +60,76 @@ def scale_of(*xs):
 
 
 # ---------------------------------------------------------------- direct oracles
-def oracle_two_points(inp):
-    """rays from point pairs: unit cosines, origin = start, end reached after the distance; NaN flag iff zero length"""
+# Every oracle is split into prep(inp) -> (callable, argument objects built ONCE) and check(inp, raw result) -> clauses.
+# run_oracle calls the implementation inp['calls'] times (default 1) with the SAME argument objects and evaluates every
+# clause on every call against the description in `inp` (the pristine copy: it is JSON and never handed to odak), plus
+# `arguments_unchanged`: bitwise comparison of every tensor / array / list argument with a copy taken before the first call.
+def snapshot(x):
+    if isinstance(x, torch.Tensor): return x.detach().clone()
+    if isinstance(x, np.ndarray): return x.copy()
+    if isinstance(x, (list, tuple)): return [snapshot(y) for y in x]
+    return x
+
+
+def same_bits(a, b):
+    if isinstance(a, torch.Tensor):
+        return isinstance(b, torch.Tensor) and a.dtype == b.dtype and a.shape == b.shape and a.detach().numpy().tobytes() == b.detach().numpy().tobytes()
+    if isinstance(a, np.ndarray):
+        return isinstance(b, np.ndarray) and a.dtype == b.dtype and a.shape == b.shape and a.tobytes() == b.tobytes()
+    if isinstance(a, (list, tuple)):
+        return isinstance(b, (list, tuple)) and len(a) == len(b) and all(same_bits(x, y) for x, y in zip(a, b))
+    if isinstance(a, float):
+        return isinstance(b, float) and np.float64(a).tobytes() == np.float64(b).tobytes()
+    return type(a) == type(b) and a == b
+
+
+def describe(x):
+    return to_np(x).tolist() if isinstance(x, (torch.Tensor, np.ndarray)) else x
+
+
+def as_arg(v, inp, default='list'):
+    """NumPy-API argument: the (nested) python list itself, or a float64 array (inp['args'], else `default`)"""
+    return np.array(v, float) if inp.get('args', default) == 'array' else json.loads(json.dumps(v))
+
+
+def run_oracle(name, inp):
+    f, args = PREP[name](inp)
+    snaps = [snapshot(x) for x in args]
+    out = []
+    for call in range(int(inp.get('calls', 1))):
+        sfx = '' if call == 0 else '@call%d' % (call + 1)
+        raw = f(*args)
+        out += [(cl + sfx, ok, e, o) for cl, ok, e, o in CHECK[name](inp, raw)]
+        changed = [i for i, (x, y) in enumerate(zip(args, snaps)) if not same_bits(x, y)]
+        out.append(('arguments_unchanged' + sfx, not changed, 'arguments as passed: %s' % [describe(snaps[i]) for i in changed],
+                    {'argument %d' % i: describe(args[i]) for i in changed}))
+    return out
+
+
+def prep_two_points(inp):
     lr, nr, nt, _ = api()
+    which = inp['api']
+    if which == 'torch':
+        return lr.create_ray_from_two_points, [torch.tensor(inp['p0'], dtype=torch.float32), torch.tensor(inp['p1'], dtype=torch.float32)]
+    if which == 'numpy':
+        if max(len(inp['p0']), len(inp['p1'])) == 1:
+            return nr.create_ray_from_two_points, [as_arg(inp['p0'][0], inp), as_arg(inp['p1'][0], inp)]
+        return nr.create_ray_from_two_points, [as_arg(inp['p0'], inp, 'array'), as_arg(inp['p1'], inp, 'array')]
+    # batch_of_rays: equal counts, or ONE entry / ONE exit point shared by all rays (given as [3] or [1 x 3])
+    p0, p1 = np.array(inp['p0'], float), np.array(inp['p1'], float)
+    return nt.batch_of_rays, [p0[0].copy() if len(p0) == 1 and inp.get('flat') else p0, p1[0].copy() if len(p1) == 1 and inp.get('flat') else p1]
+
+
+def check_two_points(inp, raw):
+    """rays from point pairs: unit cosines, origin = start, end reached after the distance; NaN flag iff zero length"""
     p0, p1, which = np.array(inp['p0'], float), np.array(inp['p1'], float), inp['api']
     m = max(len(p0), len(p1))
+    ray = to_np(raw)
+    tol = TOL32 if which == 'torch' else TOL64
     if which == 'torch':
-        ray = to_np(lr.create_ray_from_two_points(torch.tensor(p0, dtype=torch.float32), torch.tensor(p1, dtype=torch.float32)))
-        p0, p1 = p0.astype(np.float32).astype(float), p1.astype(np.float32).astype(float); tol = TOL32
-    elif which == 'numpy':
-        ray = to_np(nr.create_ray_from_two_points(p0[0].tolist(), p1[0].tolist()) if m == 1 else nr.create_ray_from_two_points(p0, p1)); tol = TOL64
-    else:
-        # batch_of_rays: equal counts, or ONE entry / ONE exit point shared by all rays (given as [3] or [1 x 3])
-        a0 = p0[0].copy() if len(p0) == 1 and inp.get('flat') else p0.copy()
-        a1 = p1[0].copy() if len(p1) == 1 and inp.get('flat') else p1.copy()
-        ray = to_np(nt.batch_of_rays(a0, a1)); tol = TOL64
-        if len(p0) == 1: p0 = np.repeat(p0, m, axis=0)
-        if len(p1) == 1: p1 = np.repeat(p1, m, axis=0)
+        p0, p1 = p0.astype(np.float32).astype(float), p1.astype(np.float32).astype(float)
+    if len(p0) == 1: p0 = np.repeat(p0, m, axis=0)
+    if len(p1) == 1: p1 = np.repeat(p1, m, axis=0)
     out = [('ray_count', ray.reshape(-1, 2, 3).shape[0] == m, m, list(ray.shape))]
     if not out[0][1]:
         return out
@@ -98,10 +151,14 @@ def oracle_two_points(inp):
     return out
 
 
-def oracle_all_pairs(inp):
+def prep_all_pairs(inp):
     lr, _, _, _ = api()
+    return lr.create_ray_from_all_pairs, [torch.tensor(inp['starts'], dtype=torch.float32), torch.tensor(inp['ends'], dtype=torch.float32)]
+
+
+def check_all_pairs(inp, raw):
     s, e = np.array(inp['starts'], np.float32), np.array(inp['ends'], np.float32)
-    ray = to_np(lr.create_ray_from_all_pairs(torch.tensor(s), torch.tensor(e)))
+    ray = to_np(raw)
     m, n = len(s), len(e)
     out = [('one_ray_per_pair', list(ray.shape) == [m * n, 2, 3], [m * n, 2, 3], list(ray.shape))]
     if not out[0][1]:
@@ -136,15 +193,19 @@ def lum_clauses(ray, limit, tilt):
         cosdev = d @ axis / nrm
         worst = float(np.min(cosdev))
         out.append(('deviation_within_limit', worst >= math.cos(math.radians(limit)) - COS_TOL32,
-                    'angle to the tilted axis <= %r deg' % limit, 'max deviation %.6f deg' % math.degrees(math.acos(max(-1., min(1., worst))))))
+                    'angle to the tilted axis (tilt %s deg) <= %r deg' % (list(tilt), limit), 'max deviation %.6f deg' % math.degrees(math.acos(max(-1., min(1., worst))))))
     return out
 
 
-def oracle_point_lum(inp):
+def prep_point_lum(inp):
     lr, _, _, _ = api()
     torch.manual_seed(inp['seed'])
+    return lr.create_ray_from_point_w_luminous_angle, [torch.tensor(inp['origin'], dtype=torch.float32), inp['num'], torch.tensor(inp['tilt'], dtype=torch.float32), float(inp['limit'])]
+
+
+def check_point_lum(inp, raw):
     org = np.array(inp['origin'], np.float32)
-    ray = to_np(lr.create_ray_from_point_w_luminous_angle(torch.tensor(org), inp['num'], torch.tensor(inp['tilt'], dtype=torch.float32), float(inp['limit'])))
+    ray = to_np(raw)
     out = [('ray_count', list(ray.shape) == [inp['num'], 2, 3], [inp['num'], 2, 3], list(ray.shape))]
     if not out[0][1]:
         return out
@@ -152,13 +213,17 @@ def oracle_point_lum(inp):
     return out + lum_clauses(ray, inp['limit'], np.array(inp['tilt'], np.float32).astype(float))
 
 
-def oracle_grid_lum(inp):
+def prep_grid_lum(inp):
     lr, _, _, _ = api()
     torch.manual_seed(inp['seed'])
+    return lr.create_ray_from_grid_w_luminous_angle, [torch.tensor(inp['centre'], dtype=torch.float32), list(inp['size']), list(inp['no']),
+                                                     torch.tensor(inp['tilt'], dtype=torch.float32), inp['per'], float(inp['limit'])]
+
+
+def check_grid_lum(inp, raw):
     n0, n1 = inp['no']; per = inp['per']; S = n0 * n1
     cen = np.array(inp['centre'], np.float32).astype(float); tilt = np.array(inp['tilt'], np.float32).astype(float)
-    ray = to_np(lr.create_ray_from_grid_w_luminous_angle(torch.tensor(inp['centre'], dtype=torch.float32), list(inp['size']), [n0, n1],
-                                                         torch.tensor(inp['tilt'], dtype=torch.float32), per, float(inp['limit'])))
+    ray = to_np(raw)
     out = [('ray_count', list(ray.shape) == [per * S, 2, 3], [per * S, 2, 3], list(ray.shape))]
     if not out[0][1]:
         return out
@@ -183,15 +248,20 @@ def shape_in(q, half, tol, plane=True):
     return [float(np.max(np.abs(q[:, k]))) <= half[k] + tol for k in range(3)]
 
 
-def oracle_grid(inp):
+def prep_grid(inp):
     _, _, nt, lt = api()
+    if inp['api'] == 'numpy':
+        return (lambda no, size, c, a: nt.grid_sample(no=no, size=size, center=c, angles=a)), [list(inp['no']), list(inp['size']), as_arg(inp['centre'], inp), as_arg(inp['angles'], inp)]
+    return (lambda no, size, c, a: lt.grid_sample(no=no, size=size, center=c, angles=a)[0]), [list(inp['no']), list(inp['size']), list(inp['centre']), list(inp['angles'])]
+
+
+def check_grid(inp, raw):
     n0, n1 = inp['no']; sx, sy = inp['size']; which = inp['api']
+    pts = to_np(raw)
     if which == 'numpy':
-        pts = to_np(nt.grid_sample(no=[n0, n1], size=[sx, sy], center=list(inp['centre']), angles=list(inp['angles']))); tol = TOL64
-        cen, ang = np.array(inp['centre'], float), np.array(inp['angles'], float)
+        tol = TOL64; cen, ang = np.array(inp['centre'], float), np.array(inp['angles'], float)
     else:
-        pts = to_np(lt.grid_sample(no=[n0, n1], size=[sx, sy], center=list(inp['centre']), angles=list(inp['angles']))[0]); tol = TOL32
-        cen, ang = np.array(inp['centre'], np.float32).astype(float), np.array(inp['angles'], np.float32).astype(float)
+        tol = TOL32; cen, ang = np.array(inp['centre'], np.float32).astype(float), np.array(inp['angles'], np.float32).astype(float)
     out = [('requested_count', list(pts.shape) == [n0 * n1, 3], [n0 * n1, 3], list(pts.shape))]
     if not out[0][1]:
         return out
@@ -215,10 +285,14 @@ def oracle_grid(inp):
     return out
 
 
-def oracle_box(inp):
+def prep_box(inp):
     _, _, nt, _ = api()
+    return (lambda no, size, c, a: nt.box_volume_sample(no=no, size=size, center=c, angles=a)), [list(inp['no']), list(inp['size']), as_arg(inp['centre'], inp), as_arg(inp['angles'], inp)]
+
+
+def check_box(inp, raw):
     n = inp['no']; s = inp['size']
-    pts = to_np(nt.box_volume_sample(no=list(n), size=list(s), center=list(inp['centre']), angles=list(inp['angles'])))
+    pts = to_np(raw)
     cnt = n[0] * n[1] * n[2]
     out = [('requested_count', list(pts.shape) == [cnt, 3], [cnt, 3], list(pts.shape))]
     if not out[0][1]:
@@ -233,12 +307,17 @@ def oracle_box(inp):
     return out
 
 
-def oracle_circle(inp):
+def prep_circle(inp):
     _, _, nt, _ = api()
-    n = inp['no']; rad = inp['radius']; fn = inp['fn']
     if 'seed' in inp:
         np.random.seed(inp['seed'])
-    pts = to_np(getattr(nt, fn)(no=list(n), radius=rad, center=list(inp['centre']), angles=list(inp['angles'])))
+    fn = getattr(nt, inp['fn'])
+    return (lambda no, rad, c, a: fn(no=no, radius=rad, center=c, angles=a)), [list(inp['no']), inp['radius'], as_arg(inp['centre'], inp), as_arg(inp['angles'], inp)]
+
+
+def check_circle(inp, raw):
+    n = inp['no']; rad = inp['radius']; fn = inp['fn']
+    pts = to_np(raw)
     out = []
     rings = [int(n[1] * i / n[0]) for i in range(n[0])]            # circular_uniform_sample: ring i carries floor(no1 * i / no0) points (ring radii: B2 only)
     want = {'circular_sample': n[0] * n[1], 'circular_uniform_random_sample': n[0] * n[1], 'circular_uniform_sample': sum(rings)}[fn]
@@ -261,10 +340,15 @@ def oracle_circle(inp):
     return out
 
 
-def oracle_sphere(inp):
+def prep_sphere(inp):
     _, _, nt, _ = api()
-    n = inp['no']; rad = inp['radius']; fn = inp['fn']
-    pts = to_np(getattr(nt, fn)(no=list(n), radius=rad, center=list(inp['centre'])))
+    fn = getattr(nt, inp['fn'])
+    return (lambda no, rad, c: fn(no=no, radius=rad, center=c)), [list(inp['no']), inp['radius'], as_arg(inp['centre'], inp)]
+
+
+def check_sphere(inp, raw):
+    n = inp['no']; rad = inp['radius']
+    pts = to_np(raw)
     out = [('requested_count', list(pts.shape) == [n[0] * n[1], 3], [n[0] * n[1], 3], list(pts.shape))]
     if not out[0][1]:
         return out
@@ -274,8 +358,11 @@ def oracle_sphere(inp):
     return out
 
 
-ORACLES = {'two_points': oracle_two_points, 'all_pairs': oracle_all_pairs, 'point_lum': oracle_point_lum, 'grid_lum': oracle_grid_lum,
-           'grid': oracle_grid, 'box': oracle_box, 'circle': oracle_circle, 'sphere': oracle_sphere}
+PREP = {'two_points': prep_two_points, 'all_pairs': prep_all_pairs, 'point_lum': prep_point_lum, 'grid_lum': prep_grid_lum,
+        'grid': prep_grid, 'box': prep_box, 'circle': prep_circle, 'sphere': prep_sphere}
+CHECK = {'two_points': check_two_points, 'all_pairs': check_all_pairs, 'point_lum': check_point_lum, 'grid_lum': check_grid_lum,
+         'grid': check_grid, 'box': check_box, 'circle': check_circle, 'sphere': check_sphere}
+ORACLES = {name: (lambda inp, name=name: run_oracle(name, inp)) for name in PREP}
 FUNCTION = {'two_points': lambda i: {'torch': 'odak.learn.raytracing.create_ray_from_two_points', 'numpy': 'odak.raytracing.create_ray_from_two_points',
                                      'batch_of_rays': 'odak.tools.batch_of_rays'}[i['api']],
             'all_pairs': lambda i: 'odak.learn.raytracing.create_ray_from_all_pairs',
@@ -391,7 +478,18 @@ def gen_inputs(ctx, n):
         un = [sq, sq] if k % 7 else [sq, sq + 1]              # boundary: non-square request
         out.append(('sphere', {'fn': 'sphere_sample_uniform', 'no': un, 'radius': gen_size(rng), 'centre': gen_centre(rng, k)},
                     'sphere/uniform/%s' % ('square' if un[0] == un[1] else 'non-square')))
-    return out
+    # reuse family: every case again with the SAME argument objects passed two and three times (float32 tensors for the
+    # PyTorch API; float64 arrays and plain lists for the NumPy API); every clause on every call + arguments_unchanged
+    reuse = []
+    for idx, (name, inp, cat) in enumerate(out):
+        calls = 2 + idx % 2
+        variant = dict(inp, calls=calls)
+        numpy_api = FUNCTION[name](inp).startswith('odak.tools') or FUNCTION[name](inp) == 'odak.raytracing.create_ray_from_two_points'
+        if numpy_api and inp.get('api') != 'batch_of_rays' and (idx // 2) % 2:
+            many = name == 'two_points' and max(len(inp['p0']), len(inp['p1'])) > 1
+            variant['args'] = 'list' if many else 'array'          # the other container than the base case uses
+        reuse.append((name, variant, 'reuse%d/%s%s' % (calls, cat, '/' + variant['args'] if 'args' in variant else '')))
+    return out + reuse
 
 
 # ---------------------------------------------------------------- B2: model evaluated inside Coq
